@@ -98,11 +98,38 @@ func invalidClass(class string) (add []CfgSetting, drop []string, ok bool) {
 			st("s3.bucket", "s3.bucket", "BAZEL_REMOTE_S3_BUCKET", y("s3_proxy", "bucket"), "string", "bkt"),
 			st("s3.auth_method", "s3.auth_method", "BAZEL_REMOTE_S3_AUTH_METHOD", y("s3_proxy", "auth_method"), "string", "access_key"),
 			st("s3.endpoint", "s3.endpoint", "BAZEL_REMOTE_S3_ENDPOINT", y("s3_proxy", "endpoint"), "string", "s3.example:9000")},
-			[]string{"http_proxy.url", "http_proxy.ca_file", "s3.bucket", "s3.auth_method", "s3.endpoint", "grpc_proxy.url", "gcs_proxy.bucket", "gcs_proxy.use_default_credentials"}, true
+			[]string{"http_proxy.url", "http_proxy.ca_file", "s3.bucket", "s3.auth_method", "s3.endpoint", "grpc_proxy.url", "gcs_proxy.bucket", "gcs_proxy.use_default_credentials",
+				"azblob.storage_account", "azblob.tenant_id", "azblob.container_name", "azblob.auth_method", "azblob.shared_key", "azblob.prefix"}, true
 	case "two_proxies_grpc_gcs":
 		return []CfgSetting{st("grpc_proxy.url", "grpc_proxy.url", "BAZEL_REMOTE_GRPC_PROXY_URL", y("grpc_proxy", "url"), "string", "grpc://b.example:9092"),
 			st("gcs_proxy.bucket", "gcs_proxy.bucket", "BAZEL_REMOTE_GCS_BUCKET", y("gcs_proxy", "bucket"), "string", "bkt")},
-			[]string{"http_proxy.url", "http_proxy.ca_file", "s3.bucket", "s3.auth_method", "s3.endpoint", "s3.prefix", "s3.region", "grpc_proxy.url", "gcs_proxy.bucket"}, true
+			[]string{"http_proxy.url", "http_proxy.ca_file", "s3.bucket", "s3.auth_method", "s3.endpoint", "s3.prefix", "s3.region", "grpc_proxy.url", "gcs_proxy.bucket",
+				"azblob.storage_account", "azblob.tenant_id", "azblob.container_name", "azblob.auth_method", "azblob.shared_key", "azblob.prefix"}, true
+	case "two_proxies_s3_azblob", "two_proxies_http_azblob", "two_proxies_grpc_azblob", "two_proxies_gcs_azblob", "azblob_without_container", "azblob_bad_auth_method":
+		az := []CfgSetting{st("azblob.storage_account", "azblob.storage_account", "BAZEL_REMOTE_AZBLOB_STORAGE_ACCOUNT", y("azblob_proxy", "storage_account"), "string", "acct"),
+			st("azblob.tenant_id", "azblob.tenant_id", "BAZEL_REMOTE_AZBLOB_TENANT_ID", y("azblob_proxy", "tenant_id"), "string", "tenant"),
+			st("azblob.container_name", "azblob.container_name", "BAZEL_REMOTE_AZBLOB_CONTAINER_NAME", y("azblob_proxy", "container_name"), "string", "cont"),
+			st("azblob.auth_method", "azblob.auth_method", "BAZEL_REMOTE_AZBLOB_AUTH_METHOD", y("azblob_proxy", "auth_method"), "string", "shared_key"),
+			st("azblob.shared_key", "azblob.shared_key", "BAZEL_REMOTE_AZBLOB_SHARED_KEY", y("azblob_proxy", "shared_key"), "string", "a2V5")}
+		dropAll := []string{"http_proxy.url", "http_proxy.ca_file", "s3.bucket", "s3.auth_method", "s3.endpoint", "s3.prefix", "s3.region", "grpc_proxy.url", "gcs_proxy.bucket", "gcs_proxy.use_default_credentials",
+			"azblob.storage_account", "azblob.tenant_id", "azblob.container_name", "azblob.auth_method", "azblob.shared_key", "azblob.prefix"}
+		switch class {
+		case "two_proxies_s3_azblob":
+			az = append(az, st("s3.bucket", "s3.bucket", "BAZEL_REMOTE_S3_BUCKET", y("s3_proxy", "bucket"), "string", "bkt"),
+				st("s3.auth_method", "s3.auth_method", "BAZEL_REMOTE_S3_AUTH_METHOD", y("s3_proxy", "auth_method"), "string", "access_key"),
+				st("s3.endpoint", "s3.endpoint", "BAZEL_REMOTE_S3_ENDPOINT", y("s3_proxy", "endpoint"), "string", "s3.example:9000"))
+		case "two_proxies_http_azblob":
+			az = append(az, st("http_proxy.url", "http_proxy.url", "BAZEL_REMOTE_HTTP_PROXY_URL", y("http_proxy", "url"), "string", "http://b.example/"))
+		case "two_proxies_grpc_azblob":
+			az = append(az, st("grpc_proxy.url", "grpc_proxy.url", "BAZEL_REMOTE_GRPC_PROXY_URL", y("grpc_proxy", "url"), "string", "grpc://b.example:9092"))
+		case "two_proxies_gcs_azblob":
+			az = append(az, st("gcs_proxy.bucket", "gcs_proxy.bucket", "BAZEL_REMOTE_GCS_BUCKET", y("gcs_proxy", "bucket"), "string", "bkt"))
+		case "azblob_without_container":
+			az = append(az[:2], az[3:]...)
+		case "azblob_bad_auth_method":
+			az[3] = st("azblob.auth_method", "azblob.auth_method", "BAZEL_REMOTE_AZBLOB_AUTH_METHOD", y("azblob_proxy", "auth_method"), "string", "kerberos")
+		}
+		return az, dropAll, true
 	case "zero_max_blob_size":
 		return []CfgSetting{st("max_blob_size", "max_blob_size", "BAZEL_REMOTE_MAX_BLOB_SIZE", y("max_blob_size"), "int", "0")}, []string{"max_blob_size"}, true
 	case "negative_max_proxy_blob_size":
@@ -118,7 +145,8 @@ func invalidClass(class string) (add []CfgSetting, drop []string, ok bool) {
 		return []CfgSetting{st("ldap.url", "ldap.url", "BAZEL_REMOTE_LDAP_URL", y("ldap", "url"), "string", "ldap://l.example")}, []string{"ldap.url", "ldap.base_dn"}, true
 	case "http_proxy_wrong_scheme":
 		return []CfgSetting{st("http_proxy.url", "http_proxy.url", "BAZEL_REMOTE_HTTP_PROXY_URL", y("http_proxy", "url"), "string", "ftp://b.example/")},
-			[]string{"http_proxy.url", "http_proxy.ca_file", "s3.bucket", "s3.auth_method", "s3.endpoint", "s3.prefix", "s3.region", "grpc_proxy.url", "gcs_proxy.bucket", "gcs_proxy.use_default_credentials"}, true
+			[]string{"http_proxy.url", "http_proxy.ca_file", "s3.bucket", "s3.auth_method", "s3.endpoint", "s3.prefix", "s3.region", "grpc_proxy.url", "gcs_proxy.bucket", "gcs_proxy.use_default_credentials",
+				"azblob.storage_account", "azblob.tenant_id", "azblob.container_name", "azblob.auth_method", "azblob.shared_key", "azblob.prefix"}, true
 	}
 	return nil, nil, false
 }
@@ -365,6 +393,19 @@ func RunConfig(tab CfgTable, seed int64, stride int) (runs []CfgRun, viols []drv
 	// the YAML form of ldap.cache_time that README documents: an integer number of seconds
 	if _, e := config.NewFromYaml([]byte("dir: /tmp/verif-cache-dir\nmax_size: 3\nldap:\n  url: ldap://l.example\n  base_dn: dc=example,dc=com\n  cache_time: 3600\n")); e != nil {
 		viols = append(viols, drv.Violation{Prop: "C19", What: fmt.Sprintf("the documented YAML form 'ldap: cache_time: 3600' (integer seconds) is refused at start-up: %v", e), Hist: 99999})
+	}
+	// an azblob backend with shared-key authentication needs no tenant id: the same settings in all three syntaxes
+	{
+		y := func(p ...string) []string { return p }
+		exec(append(append([]CfgSetting{}, base...),
+			st("azblob.storage_account", "azblob.storage_account", "BAZEL_REMOTE_AZBLOB_STORAGE_ACCOUNT", y("azblob_proxy", "storage_account"), "string", "acct"),
+			st("azblob.container_name", "azblob.container_name", "BAZEL_REMOTE_AZBLOB_CONTAINER_NAME", y("azblob_proxy", "container_name"), "string", "cont"),
+			st("azblob.auth_method", "azblob.auth_method", "BAZEL_REMOTE_AZBLOB_AUTH_METHOD", y("azblob_proxy", "auth_method"), "string", "shared_key"),
+			st("azblob.shared_key", "azblob.shared_key", "BAZEL_REMOTE_AZBLOB_SHARED_KEY", y("azblob_proxy", "shared_key"), "string", "a2V5")),
+			true, "azblob_shared_key_without_tenant_id", 99998)
+		if err != nil {
+			return
+		}
 	}
 	for ci, class := range tab.Invalid {
 		add, drop, ok := invalidClass(class)
